@@ -118,6 +118,27 @@ def oracle(case, obs):
     if sorted([v, sorted(ns)] for v, ns in adj.items()) != obs["cut_adj"]:
         out.append(("cut-adj", "cut_adj is not the adjacency of cut_edges"))
 
+    # ---- cutter.cut_graph (the reported cut edges as a polyline; 'selection' marks the singular vertices)
+    cg = obs.get("cut_graph") or {}
+    if "error" in cg:
+        out.append(("cut-graph-accessor", "cutter.cut_graph raised %s" % cg["error"]))
+    else:
+        pos = {tuple(p): v for v, p in enumerate(coords)}
+        try:
+            gv = [pos[tuple(p)] for p in cg["verts"]]
+        except KeyError:
+            gv = None
+        want_e = sorted(tuple(sorted(edges[e])) for e in cut)
+        if gv is None or len(set(gv)) != len(gv):
+            out.append(("cut-graph-accessor", "cut_graph vertices are not distinct input vertices"))
+        else:
+            got_e = sorted(tuple(sorted((gv[a], gv[b]))) for a, b in cg["edges"])
+            touched0 = {v for e in cut for v in edges[e]}
+            if got_e != want_e or set(gv) != touched0:
+                out.append(("cut-graph-accessor", "cut_graph is not the graph of cut_edges"))
+            elif sorted(gv[i] for i in cg["selected"]) != sorted(set(singus) & touched0):
+                out.append(("cut-graph-accessor", "cut_graph 'selection' does not mark the singular vertices of the cut graph"))
+
     closed_sphere = st["loops"] == 0 and st["genus"] == 0
     nsing = len(set(singus))
     if closed_sphere and nsing < 2:
